@@ -168,6 +168,9 @@ PROPS = {
     'C05': _lay_props(['KVerif.Props.C05'],
         'lone tap-hold key: 7 variants x T in {2,5,200} x concurrent on/off x tap-repress window {0,3} x hold durations {0,1,T-2..T+2}; exhaustive physically consistent schedules (<= N events) over the tap-hold key and two plain keys with gaps {0,1,T-1,T,T+1}; random interleavings of two tap-hold keys with plain keys incl. bursts; non-trivial = output changed at least twice; distinct = distinct case line. Oracle on the implementation trace: exactly one tap/hold/timeout marker effect per press, decision kind and tick for a lone key (closed form), plain keys output in press order',
         'C05o'),
+    'C17': _lay_props(['KVerif.Props.C17'],
+        'one tap-dance key (lists of 1-4 marker keys; a layer-while-held at any position; a tap-hold at the last position; the empty list the parser accepts), lazy and eager, T in {3,10,200}, rapid-event-delay 0 / 2 / default, and one plain key that has another code on the layer the dance can hold: exhaustive physically consistent schedules (<= N events) over the two keys with gaps {0,1,T-1,T,T+1} (beyond N_full events: gaps {1,T-1,T}), plus random longer schedules incl. bursts > 32 events; non-trivial = output changed at least twice; distinct = distinct case line. Oracle on the implementation trace: a reference machine written from the statement (deadline = T ticks after the last counted tap was seen; ends at the deadline, on another key\'s press, or when the list is exhausted; the N-th action pressed once and held until the release of the last counted tap; uncounted events stay queued in order; eager: each press performs the next action) must reproduce the whole trace (which keys are down after every tick), so: exactly one marker per lazy dance and the right one, one per tap when eager, the interrupting key after the chosen action (on the held layer if the action is a layer)',
+        'C17o'),
     'C04': {
         'lean_modules': ['KVerif.Props.C04'],
         'expand': True,
